@@ -311,6 +311,16 @@ pub fn fixed_cases(tree: &Tree) -> Vec<Case> {
             }
         }
     }
+    // 2b. a plain load of w.data followed by another spelling of the same file: exercises the
+    //     loaders' per-file caches (keyed by path), which must not bypass the location check.
+    for (i, v) in ["w.data/", "w.data/.", "w.data//", "./w.data", "sub/../w.data", "W.DATA", "w.data\0", "w.data/..", "../m/w.data", "m/w.data", "w.data\\", "linkin.data", "w.data"].iter().enumerate() {
+        out.push(Case {
+            tensors: vec![simple_tensor(b("w.data"), 0, 16), simple_tensor(b(v), 16, 16)],
+            optimize: i % 2 == 1,
+            model_path: variants[i % 4].into(),
+            family: "fixed-pair".into(),
+        });
+    }
     // 3. every accepted name x dtype with an aligned in-range slice, whole file, and one byte too many.
     for name in accepted_names() {
         let size = naive_size_direct(tree, &name);
